@@ -1242,3 +1242,76 @@ def c20_programs(tier, sd):
     out.append({"tag": "order", "desc": "ordered but unsatisfiable", "prog": one_class(f2, [E(["<", a, b]), E(["<", b, a]), O(["a"], ["b"])]),
                 "world": [["top", "obj", "Top"]], "ops": [["randomize", ["top"]]]})
     return out
+
+
+# ------------------------------------------------------------------------------------------ C04 lists
+def c04_programs(tier, sd):
+    rnd = random.Random(sd)
+    out = []
+    SZ = ["size", ["l"]]
+    IT, IX = ["it", "i"], ["idx", "i"]
+    k, a = F("k"), F("a")
+
+    def fe(*body):
+        return ["foreach", ["l"], "i", list(body)]
+    size_cs = [[E(["<=", SZ, lit(4)])], [E(["==", SZ, lit(2)])], [E(["in", SZ, [lit(0), lit(3)]])], [E([">", SZ, lit(0)]), E(["<", SZ, lit(4)])],
+               [E(["<=", SZ, lit(3)]), E([">=", SZ, lit(1)])]]
+    bodies = [
+        ("foreach_lt", [fe(E(["<", IT, lit(10)]))]),
+        ("foreach_idx", [fe(E([">", IT, IX]))]),
+        ("foreach_sorted", [fe(["if", [[[">", IX, lit(0)], [E([">", IT, F("l", ["idx", "i", -1])])]]], None])]),
+        ("foreach_next", [fe(["if", [[["<", ["+", IX, lit(1)], SZ], [E(["<", IT, F("l", ["idx", "i", 1])])]]], None])]),
+        ("sum_eq_field", [E(["==", ["sum", ["l"]], k])]),
+        ("sum_lt", [E(["<", ["sum", ["l"]], lit(20)]), fe(E([">", IT, lit(2)]))]),
+        ("unique", [["unique", [["list", ["l"]]]], fe(E(["<", IT, lit(6)]))]),
+        ("size_eq_field", [E(["==", SZ, a]), fe(E(["==", IT, lit(7)]))]),
+        ("size_coupled_sum", [E(["==", a, SZ]), E(["==", ["sum", ["l"]], ["+", a, lit(10)]])]),
+        ("in_list", [E(["in_list", k, ["l"]]), E([">", SZ, lit(0)]), fe(E(["<", IT, lit(5)]))]),
+        ("foreach_if_field", [fe(["if", [[["<", a, lit(2)], [E(["==", IT, lit(1)])]]], [E(["==", IT, lit(2)])]])]),
+        ("unconstrained_elems", []),
+        ("product", [E(["<", ["product", ["l"]], lit(40)]), fe(E([">", IT, lit(1)]))]),
+    ]
+    for ety in (("u", 8), ("u", 4), ("s", 8)):
+        for sci, sc in enumerate(size_cs):
+            for bn, body in bodies:
+                if tier == "quick" and (sci + len(bn)) % 2 == 1 and ety != ("u", 8):
+                    continue
+                if bn == "product" and ety != ("u", 4):
+                    continue
+                fields = [["l", "list", list(ety), 0, True, True], fld("k", ("u", 8)), fld("a", ("u", 3))]
+                pr = one_class(fields, sc + body)
+                ops = [["randomize", ["top"]], ["randomize", ["top"]], ["list_append", ["top", "l"], 5], ["randomize", ["top"]],
+                       ["list_clear", ["top", "l"]], ["randomize", ["top"]], ["list_assign", ["top", "l"], [1, 2, 3]], ["randomize_with", ["top"], [E(["<", a, lit(4)])]],
+                       ["list_append", ["top", "l"], 9], ["list_append", ["top", "l"], 8], ["vsc_randomize", [["top"]]]]
+                out.append({"tag": "randsz:" + bn, "desc": "randsz %s%d size %s body %s" % (ety[0], ety[1], sc, bn), "prog": pr,
+                            "world": [["top", "obj", "Top"]], "ops": ops})
+    # fixed-size lists with list operations between calls
+    for ety in (("u", 8), ("s", 4)):
+        for bn, body in bodies:
+            if bn in ("size_eq_field", "size_coupled_sum", "product"):
+                continue
+            fields = [["l", "list", list(ety), 3, True, False], fld("k", ("u", 8)), fld("a", ("u", 3))]
+            pr = one_class(fields, body)
+            ops = [["randomize", ["top"]], ["list_append", ["top", "l"], 5], ["randomize", ["top"]], ["list_clear", ["top", "l"]], ["randomize", ["top"]],
+                   ["list_assign", ["top", "l"], [1, 2]], ["randomize", ["top"]], ["list_append", ["top", "l"], 3], ["list_append", ["top", "l"], 4], ["list_append", ["top", "l"], 6],
+                   ["randomize_with", ["top"], [E(["==", SZ, lit(5)])]]]
+            out.append({"tag": "fixedsz:" + bn, "desc": "fixed list %s%d body %s" % (ety[0], ety[1], bn), "prog": pr,
+                        "world": [["top", "obj", "Top"]], "ops": ops})
+    # enum lists, object lists (foreach over objects, nested foreach), unique_vec
+    ef = [["l", "list", ["enum", "E3"], 0, True, True], ["m", "list", ["enum", "E3"], 3, True, False]]
+    for body in ([E(["<=", SZ, lit(3)]), fe(E(["!=", IT, ["enum", "E3", "A"]]))], [E(["==", SZ, lit(2)]), ["unique", [["list", ["l"]]]]],
+                 [E(["<=", SZ, lit(2)]), ["unique", [["list", ["m"]]]]]):
+        out.append({"tag": "enum_list", "desc": "enum lists %s" % (body,), "prog": one_class(ef, body, ENUMS), "world": [["top", "obj", "Top"]],
+                    "ops": [["randomize", ["top"]], ["randomize", ["top"]], ["list_append", ["top", "m"], 5], ["randomize", ["top"]]]})
+    Item = {"name": "Item", "fields": [fld("x", ("u", 8)), fld("y", ("u", 8)), ["arr", "list", ["u", 4], 2, True, False]],
+            "blocks": [["ib", "c", [E(["<", F("x"), F("y")]), ["foreach", ["arr"], "j", [E(["<", ["it", "j"], lit(9)])]]]]]}
+    for body in ([["foreach", ["items"], "i", [E(["<", ["it", "i", "x"], lit(50)]), E([">", ["it", "i", "y"], ["idx", "i"]])]]],
+                 [["foreach", ["items"], "i", [["if", [[[">", ["idx", "i"], lit(0)], [E([">", ["it", "i", "x"], F("items", ["idx", "i", -1], "x")])]]], None]]]],
+                 [E(["==", F("items", 0, "x"), F("items", 2, "y")])]):
+        Top = {"name": "Top", "fields": [["items", "list", ["obj", "Item"], 3, True, False], fld("a", ("u", 8))], "blocks": [["tb", "c", body]]}
+        out.append({"tag": "obj_list", "desc": "object list %s" % (body,), "prog": {"enums": {}, "classes": [Item, Top]}, "world": [["top", "obj", "Top"]],
+                    "ops": [["randomize", ["top"]], ["list_append", ["top", "items"], 0], ["randomize", ["top"]], ["randomize_with", ["top"], [E(["<", F("a"), lit(9)])]]]})
+    uv = [["p", "list", ["u", 2], 2, True, False], ["q", "list", ["u", 2], 2, True, False], ["r", "list", ["u", 2], 2, True, False]]
+    out.append({"tag": "unique_vec", "desc": "unique_vec over three 2-element lists", "prog": one_class(uv, [["unique_vec", [["p"], ["q"], ["r"]]]]),
+                "world": [["top", "obj", "Top"]], "ops": [["randomize", ["top"]], ["randomize", ["top"]]]})
+    return out
